@@ -73,7 +73,7 @@ theorem sim_close {cfg : Cfg} {d d' : RState} {m : Mon} {o : Obs} (hs : Sim cfg 
             (monUpd m.tbl (sname i) mDead, m.pend) := by
           rcases hstt with h | h <;> subst h <;> simp [bookAnswer, hs.stateful, hname] <;> rfl
         have hne : stt ≠ .noop := by rcases hstt with h | h <;> subst h <;> simp
-        apply sim_one_op hs hmo rfl hG rfl rfl rfl rfl hinv2 (pendOkW_counters hs.pok.weak (Nat.le_refl _) (Nat.le_succ _))
+        apply sim_one_op hs hmo (Or.inl rfl) rfl hG rfl rfl rfl rfl hinv2 (pendOkW_counters hs.pok.weak (Nat.le_refl _) (Nat.le_succ _))
           (fun j _ => ⟨rfl, rfl⟩) (fun p hp j _ _ => hs.pok.keep hp)
           (tblX := monUpd m.tbl (sname i) mDead)
         · rw [hba]; show bookDone _ _ _ [] = _; simp [bookSlots, bookDone, hs.pend]
@@ -116,7 +116,7 @@ theorem sim_close {cfg : Cfg} {d d' : RState} {m : Mon} {o : Obs} (hs : Sim cfg 
         have hnsP : ∀ j, nsOf (d.pend ++ [Pend.mk (Tag.c (d.nasync + 1)) (PendKind.cls i)]) j = nsOf d.pend j ∧
             nrOf (d.pend ++ [Pend.mk (Tag.c (d.nasync + 1)) (PendKind.cls i)]) j = nrOf d.pend j :=
           fun j => ⟨nsOf_append_other _ _ _ rfl, nrOf_append_other _ _ _ rfl⟩
-        apply sim_one_op hs hmo rfl hG rfl rfl rfl rfl hinv2
+        apply sim_one_op hs hmo (Or.inl rfl) rfl hG rfl rfl rfl rfl hinv2
           (pendOkW_append_close hs.pok.weak (Pend.mk (Tag.c (d.nasync + 1)) (PendKind.cls i)) hi (Or.inr ⟨rfl, rfl⟩))
           (fun j _ => hnsP j)
           (tblX := monUpd m.tbl (sname i) dyingF)
